@@ -6,6 +6,7 @@
    goes through. *)
 From Coq Require Import String.
 From PB Require Import Model.PyPrims Proofs.InstanceP Proofs.SatisfactionP.
+From Coq Require Import Qround.
 From Coq Require Import Setoid Morphisms.
 Open Scope Q_scope.
 
@@ -16,11 +17,14 @@ Global Hint Unfold py_int_of_bool py_truth py_eq py_ne py_lt py_le py_gt py_ge f
   py_ballot_iter py_in_ballot py_len_ballot py_ballot_get py_ballot_getitem py_ballot_position
   py_profile_iter py_in_pballot py_pballot_iter py_multiplicity py_len_profile py_approval_score
   py_dict_get py_dict_get_default py_sorted_by_key py_sorted_projects py_in_list py_proj_eq py_index
-  py_inst py_proj py_ballot py_profile py_pballot py_aprofile : pyprims.
+  py_inst py_proj py_ballot py_profile py_pballot py_aprofile
+  py_chain py_combinations py_enumerate py_sorted_nums py_np_median py_float py_len_pballot py_num_ballots
+  py_profile_approval_score py_profile_total_score py_as_sat_profile py_satprofile_iter py_satprofile_multiplicity
+  py_satobj py_satclass py_satentry py_satprofile py_is_empty : pyprims.
 
 Global Hint Unfold cardinality_p cost_p rel_card_p rel_card_norm rel_by rel_cost_p approx_norm rel_cost_approx_p
   effort_p add_card_p add_card_rel_p borda_p cc_app cc_card ind sat_add bcosts rel_cost_norm add_card_rel_norm
-  tcost : pymodel.
+  tcost nproj is_feasible is_exhaustive budget_allocations is_trivial : pymodel.
 
 (* ---------- comparisons respect == ---------- *)
 Global Instance Qeqb_proper : Proper (Qeq ==> Qeq ==> eq) Qeqb.
@@ -126,6 +130,66 @@ Lemma existsb_is_empty_filter {A} (c : A -> bool) (l : list A) :
   negb (py_is_empty (filter c l)) = existsb c l.
 Proof. induction l as [|x l IH]; simpl; [reflexivity|]. destruct (c x); simpl; [reflexivity|exact IH]. Qed.
 
+(* Python ints as counts *)
+Lemma py_nat_Qnat n : py_nat (Qnat n) = n.
+Proof. unfold py_nat, Qnat. rewrite Qfloor_Z. apply Nat2Z.id. Qed.
+Lemma Qnat_succ n : Qnat n + 1 == Qnat (S n).
+Proof. unfold Qnat. rewrite Nat2Z.inj_succ. unfold Z.succ. rewrite inject_Z_plus. reflexivity. Qed.
+Lemma py_nat_Qnat_succ n : py_nat (Qnat n + 1) = S n.
+Proof. unfold py_nat. rewrite (Qfloor_comp _ _ (Qnat_succ n)). apply py_nat_Qnat. Qed.
+Lemma py_range_Qnat n : py_range (Qnat n) = map Qnat (seq 0 n).
+Proof. unfold py_range. rewrite py_nat_Qnat. reflexivity. Qed.
+Lemma py_range_Qnat_succ n : py_range (Qnat n + 1) = map Qnat (seq 0 (S n)).
+Proof. unfold py_range. rewrite py_nat_Qnat_succ. reflexivity. Qed.
+Lemma py_range_length n : length (py_range (Qnat n)) = n.
+Proof. rewrite py_range_Qnat, map_length, seq_length. reflexivity. Qed.
+Lemma map_py_nat_Qnat {A} (f : nat -> A) (s : list nat) : map (fun r : Q => f (py_nat r)) (map Qnat s) = map f s.
+Proof. rewrite map_map. apply map_ext. intro x. rewrite py_nat_Qnat. reflexivity. Qed.
+Lemma concat_map_flat_map {A B} (f : A -> list B) l : concat (map f l) = flat_map f l.
+Proof. symmetry. apply flat_map_concat_map. Qed.
+
+(* the instance's projects in rank order carry the instance's costs *)
+Lemma map_nth_seq (cs : list Q) : map (fun p => nth p cs 0) (seq 0 (length cs)) = cs.
+Proof.
+  induction cs as [|c cs IH]; simpl; [reflexivity|]. f_equal.
+  rewrite <- seq_shift, map_map. simpl. exact IH.
+Qed.
+Lemma map_cost_all_projects I : map (cost I) (all_projects I) = costs I.
+Proof. unfold all_projects, nproj, cost. apply map_nth_seq. Qed.
+Lemma all_projects_length I : length (all_projects I) = nproj I.
+Proof. unfold all_projects. apply seq_length. Qed.
+
+(* min(...) of a non-empty sequence: the running minimum of Model/InstanceM.v *)
+Lemma py_min_fold_Qmin_list r : forall c c', c == c' -> fold_left py_min2 r c == Qmin_list c' r.
+Proof.
+  induction r as [|x r IH]; intros c c' H; simpl; [exact H|]. apply IH.
+  unfold py_min2. destruct (Qltb x c) eqn:E1, (Qleb c' x) eqn:E2;
+    try apply Qltb_iff in E1; try apply Qltb_false_iff in E1; try apply Qleb_iff in E2; try apply Qleb_false_iff in E2;
+    lra.
+Qed.
+Lemma py_min_list_Qmin_list c r d : py_min_list (c :: r) d == Qmin_list c r.
+Proof. simpl. apply py_min_fold_Qmin_list. reflexivity. Qed.
+
+(* loops that collect values (yield / append) *)
+Lemma fold_collect_if {A} (c : A -> bool) (l : list A) : forall acc,
+  fold_left (fun (acc : list A) x => if c x then acc ++ [x] else acc) l acc = acc ++ filter c l.
+Proof.
+  induction l as [|x l IH]; intro acc; simpl; [rewrite app_nil_r; reflexivity|].
+  rewrite IH. destruct (c x); simpl; [rewrite <- app_assoc; reflexivity|reflexivity].
+Qed.
+Lemma fold_collect {A B} (h : A -> list B) (l : list A) : forall acc,
+  fold_left (fun (acc : list B) x => acc ++ h x) l acc = acc ++ flat_map h l.
+Proof.
+  induction l as [|x l IH]; intro acc; simpl; [rewrite app_nil_r; reflexivity|].
+  rewrite IH, app_assoc. reflexivity.
+Qed.
+Lemma fold_collect_const {A B} (v : B) (l : list A) : forall acc,
+  fold_left (fun (acc : list B) _ => acc ++ [v]) l acc = acc ++ repeat v (length l).
+Proof.
+  induction l as [|x l IH]; intro acc; simpl; [rewrite app_nil_r; reflexivity|].
+  rewrite IH, <- app_assoc. reflexivity.
+Qed.
+
 (* a loop that returns at the first element satisfying c = find *)
 Lemma fold_first {A B} (c : A -> bool) (v : A -> B) (l : list A) :
   fold_left (fun (r : option B) x => match r with Some _ => r | None => if c x then Some (v x) else r end) l None
@@ -142,19 +206,47 @@ Lemma existsb_find {A} (c : A -> bool) (l : list A) :
   existsb c l = match find c l with Some _ => true | None => false end.
 Proof. induction l as [|x l IH]; simpl; [reflexivity|]. destruct (c x); simpl; [reflexivity|exact IH]. Qed.
 
-(* `found = False; for x in l: if c x: found = True; break` : the state is (stop flag, found) *)
-Lemma fold_break_found {A} (c : A -> bool) (l : list A) : forall f0 : bool,
+(* `flag = f0; for x in l: if c x: flag = v; break` : the state is (stop flag, flag) *)
+Lemma fold_break_flag {A} (c : A -> bool) (v : bool) (l : list A) : forall f0 : bool,
   fold_left (fun (st : bool * bool) x => let '(stop, f) := st in
-               if stop then st else if c x then (true, true) else (stop, f)) l (false, f0)
-  = (existsb c l, (f0 || existsb c l)%bool).
+               if stop then st else if c x then (true, v) else (stop, f)) l (false, f0)
+  = (existsb c l, if existsb c l then v else f0).
 Proof.
   assert (K : forall (l : list A) f, fold_left (fun (st : bool * bool) x => let '(stop, f) := st in
-               if stop then st else if c x then (true, true) else (stop, f)) l (true, f) = (true, f)).
+               if stop then st else if c x then (true, v) else (stop, f)) l (true, f) = (true, f)).
   { intro l0. induction l0 as [|x l0 IH]; intro f; simpl; [reflexivity|apply IH]. }
-  induction l as [|x l IH]; intro f0; simpl.
-  - rewrite orb_false_r. reflexivity.
-  - destruct (c x); simpl; [rewrite K, orb_true_r; reflexivity|apply IH].
+  induction l as [|x l IH]; intro f0; simpl; [reflexivity|].
+  destruct (c x); simpl; [rewrite K; reflexivity|apply IH].
 Qed.
+
+Lemma forallb_map {A B} (f : A -> B) (g : B -> bool) l : forallb g (map f l) = forallb (fun x => g (f x)) l.
+Proof. induction l as [|x l IH]; simpl; [reflexivity|]. rewrite IH. reflexivity. Qed.
+Lemma forallb_filter {A} (c g : A -> bool) l : forallb g (filter c l) = forallb (fun x => negb (c x) || g x) l.
+Proof. induction l as [|x l IH]; simpl; [reflexivity|]. destruct (c x); simpl; rewrite IH; reflexivity. Qed.
+
+Lemma flat_map_py_nat_Qnat {B} (f : nat -> list B) (s : list nat) :
+  flat_map (fun x : nat => f (py_nat (Qnat x))) s = flat_map f s.
+Proof. induction s as [|x s IH]; simpl; [reflexivity|]. rewrite IH, py_nat_Qnat. reflexivity. Qed.
+Lemma map_py_nat_Qnat' {B} (f : nat -> B) (s : list nat) : map (fun x : nat => f (py_nat (Qnat x))) s = map f s.
+Proof. apply map_ext. intro x. rewrite py_nat_Qnat. reflexivity. Qed.
+Lemma filter_map_comm {A B} (c : B -> bool) (g : A -> B) l : filter c (map g l) = map g (filter (fun x => c (g x)) l).
+Proof. induction l as [|x l IH]; simpl; [reflexivity|]. destruct (c (g x)); simpl; rewrite IH; reflexivity. Qed.
+Lemma filter_ext' {A} (f g : A -> bool) l : (forall x, f x = g x) -> filter f l = filter g l.
+Proof. intro H. induction l as [|x l IH]; simpl; [reflexivity|]. rewrite H, IH. reflexivity. Qed.
+
+(* nested collecting loops: for x in l: for c in h(x): yield c *)
+Lemma fold_collect_nested {A B} (h : A -> list B) (l : list A) : forall acc,
+  fold_left (fun (acc : list B) x => fold_left (fun (acc : list B) c => acc ++ [c]) (h x) acc) l acc
+  = acc ++ flat_map h l.
+Proof.
+  assert (K : forall (s : list B) acc, fold_left (fun (acc : list B) c => acc ++ [c]) s acc = acc ++ s).
+  { induction s as [|c s IH]; intro acc; simpl; [rewrite app_nil_r; reflexivity|]. rewrite IH, <- app_assoc. reflexivity. }
+  induction l as [|x l IH]; intro acc; simpl; [rewrite app_nil_r; reflexivity|].
+  rewrite K, IH, app_assoc. reflexivity.
+Qed.
+Lemma flat_map_py_nat {B} (f : nat -> list B) (s : list nat) :
+  flat_map (fun r : Q => f (py_nat r)) (map Qnat s) = flat_map f s.
+Proof. induction s as [|x s IH]; simpl; [reflexivity|]. rewrite IH, py_nat_Qnat. reflexivity. Qed.
 
 (* a loop with a `found` flag / early return = existsb *)
 Lemma fold_any {A} (c : A -> bool) l : forall a,
@@ -207,6 +299,15 @@ Proof.
   destruct n; [reflexivity|]. pose proof (Qnat_pos (S n) (Nat.lt_0_succ n)) as Hp. rewrite H in Hp. lra.
 Qed.
 
+Lemma Qnat_lt_1 n : Qnat n < 1 -> n = 0%nat.
+Proof. intro H. destruct n; [reflexivity|]. rewrite Qnat_S in H. pose proof (Qnat_nonneg n). lra. Qed.
+Lemma Qnat_ge_1 n : 1 <= Qnat n -> n <> 0%nat.
+Proof. intros H E. subst. change (Qnat 0) with 0 in H. lra. Qed.
+Lemma Qnat_le_0 n : Qnat n <= 0 -> n = 0%nat.
+Proof. intro H. destruct n; [reflexivity|]. rewrite Qnat_S in H. pose proof (Qnat_nonneg n). lra. Qed.
+Lemma Qnat_gt_0 n : 0 < Qnat n -> n <> 0%nat.
+Proof. intros H E. subst. change (Qnat 0) with 0 in H. lra. Qed.
+
 Lemma Qnat_eqb0' n : Qeqb (Qnat n) 0 = Nat.eqb n 0.
 Proof. apply Qnat_eqb0. Qed.
 
@@ -240,11 +341,16 @@ Ltac py_split_step :=
   | |- context [find ?c ?l] => rewrite ?(existsb_find c l); let E := fresh "E" in destruct (find c l) eqn:E; cbn [option_map]
   | |- context [if ?c then _ else _] => py_case c
   | H : context [if ?c then _ else _] |- _ => py_case c
+  | |- context [match ?c with [] => _ | _ :: _ => _ end] =>
+      lazymatch c with
+      | [] => fail | _ :: _ => fail
+      | _ => let E := fresh "E" in destruct c eqn:E; try rewrite E in *
+      end
   | |- context [match ?c with Some _ => _ | None => _ end] =>
       lazymatch c with | Some _ => fail | None => fail | _ => let E := fresh "E" in destruct c eqn:E end
   end.
 
-Ltac py_simpl := cbn [andb orb negb fst snd map filter app fold_left Qsum existsb forallb py_max_list py_min_list option_map] in *.
+Ltac py_simpl := cbn [andb orb negb fst snd map filter app fold_left Qsum existsb forallb py_max_list option_map length] in *.
 
 Ltac py_bool_to_prop :=
   repeat match goal with
@@ -256,6 +362,12 @@ Ltac py_bool_to_prop :=
   | H : Qltb _ _ = false |- _ => apply Qltb_false_iff in H
   | H : Nat.eqb _ _ = true |- _ => apply Nat.eqb_eq in H
   | H : Nat.eqb _ _ = false |- _ => apply Nat.eqb_neq in H
+  | H : negb _ = true |- _ => apply negb_true_iff in H
+  | H : negb _ = false |- _ => apply negb_false_iff in H
+  | H : andb _ _ = true |- _ => apply andb_true_iff in H; destruct H
+  | H : orb _ _ = false |- _ => apply orb_false_iff in H; destruct H
+  | H : andb _ _ = false |- _ => apply andb_false_iff in H; destruct H
+  | H : orb _ _ = true |- _ => apply orb_true_iff in H; destruct H
   | H : true = false |- _ => discriminate H
   | H : false = true |- _ => discriminate H
   end.
@@ -277,6 +389,12 @@ Ltac py_bridge :=
   repeat match goal with
   | H : Qnat ?n == 0 |- _ => apply Qnat_0_iff in H
   | H : ~ Qnat ?n == 0 |- _ => rewrite Qnat_0_iff in H
+  end;
+  repeat match goal with
+  | H : Qnat ?n < 1 |- _ => apply Qnat_lt_1 in H
+  | H : 1 <= Qnat ?n |- _ => apply Qnat_ge_1 in H
+  | H : Qnat ?n <= 0 |- _ => apply Qnat_le_0 in H
+  | H : 0 < Qnat ?n |- _ => lazymatch goal with _ : n <> 0%nat |- _ => fail | _ => pose proof (Qnat_gt_0 n H) end
   end;
   repeat match goal with
   | H : ?n <> 0%nat |- _ =>
@@ -309,6 +427,9 @@ Ltac py_arith :=
   | solve [exfalso; lia]
   | solve [exfalso; congruence]
   | solve [subst; first [reflexivity | lra | ring]]
+  | solve [ repeat match goal with H : ?a == ?b |- _ => is_var a; rewrite H; clear H end;
+            first [reflexivity | ring | lra | unfold Qdiv; ring] ]
+  | solve [ unfold Qdiv; ring ]
   | nra ].
 
 (* comparisons of literal dictionary keys are computed *)
@@ -346,7 +467,24 @@ Ltac py_loops :=
   | rewrite fold_left_map
   | rewrite fold_left_filter
   | rewrite fold_first
-  | rewrite fold_break_found
+  | rewrite py_range_Qnat_succ
+  | rewrite py_range_Qnat
+  | rewrite py_nat_Qnat
+  | rewrite (map_py_nat_Qnat (fun r => combs _ r))
+  | rewrite concat_map_flat_map
+  | rewrite fold_collect_if
+  | rewrite fold_collect_const
+  | rewrite fold_collect
+  | rewrite app_nil_l
+  | rewrite map_cost_all_projects
+  | rewrite py_min_list_Qmin_list
+  | rewrite fold_break_flag
+  | rewrite forallb_map
+  | rewrite forallb_filter
+  | rewrite fold_collect_nested
+  | rewrite (flat_map_py_nat (fun r => combs _ r))
+  | rewrite (flat_map_py_nat_Qnat (fun r => combs _ r))
+  | rewrite (map_py_nat_Qnat' (fun r => combs _ r))
   | rewrite existsb_length_filter
   | rewrite existsb_length_filter_ne
   | rewrite existsb_is_empty_filter
@@ -357,6 +495,7 @@ Ltac py_loops :=
         | |- context [Qsum (map ?h P)] => rewrite (supporters_sum_ext h P p) by (intro; cbv beta; py_cases_in_loops)
         end
     end
+  | rewrite filter_map_comm
   | rewrite map_map
   | rewrite map_id
   | rewrite supporters_sum
@@ -390,7 +529,221 @@ Ltac py_fold :=
             let H2 := fresh "H" in intros a a' x [H1 H2]; py_unfold; split; py_cases
           | split; py_arith ] ].
 
-Ltac py_auto := solve [ py_pointwise | py_sum_ext; py_cases | py_fold ].
+
+(* loops with an early return / quantifiers: [find] on the generated side, [forallb]/[existsb] on the model side.
+   Every [find], [forallb], [existsb] is replaced by its meaning (a witness or a universal fact), the universal
+   facts are instantiated with the witnesses, and the pointwise procedure decides the rest. *)
+Lemma forallb_false_ex {A} (f : A -> bool) l : forallb f l = false -> exists x, In x l /\ f x = false.
+Proof.
+  induction l as [|x l IH]; simpl; [discriminate|]. destruct (f x) eqn:E; simpl.
+  - intro H. destruct (IH H) as [y [Hy Hf]]. exists y. split; [right; exact Hy|exact Hf].
+  - intros _. exists x. split; [left; reflexivity|exact E].
+Qed.
+Lemma existsb_false_all {A} (f : A -> bool) l : existsb f l = false -> forall x, In x l -> f x = false.
+Proof.
+  intros H x Hx. destruct (f x) eqn:E; [|reflexivity].
+  assert (existsb f l = true) by (apply existsb_exists; exists x; split; assumption). congruence.
+Qed.
+
+Ltac py_quant_facts :=
+  repeat match goal with
+  | |- context [find ?c ?l] =>
+      let E := fresh "E" in destruct (find c l) eqn:E; cbn [option_map];
+      [ apply find_some in E; destruct E | pose proof (find_none _ _ E); clear E ]
+  end;
+  repeat match goal with
+  | |- context [forallb ?g ?l] =>
+      let F := fresh "F" in destruct (forallb g l) eqn:F;
+      [ rewrite forallb_forall in F | apply forallb_false_ex in F; destruct F as [? [? ?]] ]
+  | |- context [existsb ?g ?l] =>
+      let F := fresh "F" in destruct (existsb g l) eqn:F;
+      [ apply existsb_exists in F; destruct F as [? [? ?]] | pose proof (existsb_false_all _ _ F); clear F ]
+  end;
+  repeat match goal with
+  | H : forall x, In x ?l -> _ |- _ =>
+      repeat match goal with Hin : In ?y l |- _ => pose proof (H y Hin); revert Hin end;
+      intros; clear H
+  end;
+  cbv beta in *.
+
+Ltac py_quant := solve [ intros; py_unfold; py_loops; py_quant_facts; py_cases ].
+
+
+(* ---------- loops with a compound state: compare with a canonical loop, component by component ---------- *)
+Create HintDb pycanon.
+
+Lemma fold_left_rel {S T B} (R : S -> T -> Prop) (f : S -> B -> S) (g : T -> B -> T) (l : list B) : forall s t,
+  (forall s t x, R s t -> R (f s x) (g t x)) -> R s t -> R (fold_left f l s) (fold_left g l t).
+Proof. induction l as [|x l IH]; intros s t H Hst; simpl; [exact Hst|]. apply IH; [exact H|]. apply H. exact Hst. Qed.
+
+Definition opt_rel {A} (R : A -> A -> Prop) (a b : option A) : Prop :=
+  match a, b with Some x, Some y => R x y | None, None => True | _, _ => False end.
+
+Lemma opt_Qeq_trans (a b c : option Q) : opt_rel Qeq a b -> opt_rel Qeq b c -> opt_rel Qeq a c.
+Proof. destruct a, b, c; cbn [opt_rel]; try tauto. intros H1 H2. rewrite H1. exact H2. Qed.
+Lemma opt_Qeq_refl (a : option Q) : opt_rel Qeq a a.
+Proof. destruct a; cbn [opt_rel]; [reflexivity|exact I]. Qed.
+
+(* the componentwise relation of a state type: == on numbers, = on everything else *)
+Ltac rel_of T :=
+  lazymatch T with
+  | (?A * ?B)%type =>
+      let ra := rel_of A in let rb := rel_of B in
+      constr:(fun (s t : A * B) => ra (fst s) (fst t) /\ rb (snd s) (snd t))
+  | Q => constr:(Qeq)
+  | option ?A => let ra := rel_of A in constr:(@opt_rel A ra)
+  | _ => constr:(@eq T)
+  end.
+
+Ltac py_destruct_tuples :=
+  repeat match goal with
+  | p : (_ * _)%type |- _ => destruct p
+  | H : _ /\ _ |- _ => destruct H
+  end.
+
+Ltac py_opt_rel :=
+  repeat match goal with
+  | H : opt_rel _ ?a ?b |- _ => destruct a, b; cbn [opt_rel] in H; try contradiction
+  | |- opt_rel _ ?a ?b => cbn [opt_rel]
+  end.
+
+(* [py_fold_rel]: the goal mentions two loops over the same sequence with the same state type *)
+Ltac py_fold_rel_rec := fail.     (* tied below: loops nested in the body / a second loop after the first *)
+
+(* two sums over the same sequence whose summands agree *)
+Ltac py_sum_rel :=
+  match goal with
+  | |- context [Qsum (map ?f ?l)] =>
+      match goal with
+      | |- context [Qsum (map ?g l)] =>
+          lazymatch f with
+          | g => fail
+          | _ =>
+              let H := fresh "Hsum" in
+              assert (H : Qsum (map f l) == Qsum (map g l));
+              [ apply Qsum_map_ext; intros; py_destruct_tuples; cbv beta iota zeta; cbn [fst snd]; py_cases
+              | rewrite H; clear H; first [ reflexivity | py_arith ] ]
+          end
+      end
+  end.
+
+Ltac py_rel_finish :=
+  cbn [fst snd opt_rel]; repeat split;
+  first [ apply opt_Qeq_refl | exact I | py_arith | py_fold_rel_rec | py_sum_rel
+        | py_loops; first [ py_arith | py_sum_rel ] ].
+
+Ltac py_fold_rel_with F l s0 G t0 :=
+  let T := type of s0 in
+  let R := rel_of T in
+  let H := fresh "Hrel" in
+  assert (H : R (fold_left F l s0) (fold_left G l t0));
+  [ apply (fold_left_rel R F G l s0 t0);
+    [ let s := fresh "s" in let t := fresh "t" in let x := fresh "x" in let Hst := fresh "Hst" in
+      intros s t x Hst; cbv beta in *; py_destruct_tuples; cbn [fst snd] in *; py_destruct_tuples; subst;
+      py_opt_rel; cbv beta iota zeta; py_unfold; autounfold with pycanon; cbv beta iota zeta; cbn [fst snd];
+      py_cases; py_rel_finish
+    | cbv beta; cbn [fst snd opt_rel]; repeat split; py_arith ]
+  | cbv beta in H;
+    let a := fresh "a" in let b := fresh "b" in
+    generalize dependent (fold_left F l s0); intro a; generalize dependent (fold_left G l t0); intro b; intro H;
+    py_destruct_tuples; cbn [fst snd] in *; py_destruct_tuples; subst; py_opt_rel; cbv beta iota zeta;
+    cbn [fst snd opt_rel]; py_cases; try py_rel_finish ].
+
+(* the same loop on both sides (only what follows it differs) *)
+Ltac py_fold_same :=
+  match goal with
+  | |- context [fold_left ?F ?l ?s0] =>
+      let a := fresh "a" in
+      generalize (fold_left F l s0); intro a; py_destruct_tuples; cbv beta iota zeta; cbn [fst snd opt_rel];
+      py_cases; try py_rel_finish
+  end.
+
+Ltac py_fold_rel :=
+  first
+  [ match goal with
+    | |- context [fold_left ?F ?l ?s0] =>
+        match goal with
+        | |- context [fold_left ?G l ?t0] =>
+            lazymatch constr:((F, s0)) with
+            | (G, t0) => fail
+            | _ => solve [ py_fold_rel_with F l s0 G t0 ]
+            end
+        end
+    end
+  | solve [ py_fold_same ] ].
+
+Ltac py_fold_rel_rec ::= py_fold_rel.
+
+(* max_budget_allocation_cardinality: the canonical loop (stop flag, cost so far, number selected) *)
+Definition mc_step (cost : proj -> Q) (B : Q) (st : bool * Q * Q) (p : proj) : bool * Q * Q :=
+  let '(stop, c, k) := st in
+  if stop then st else if Qltb B (cost p + c) then (true, c, k) else (stop, cost p + c, k + 1).
+
+Global Hint Unfold mc_step : pycanon.
+
+Lemma isort_map_key {A} (f : A -> Q) (l : list A) :
+  map f (isort (fun x y => Qleb (f x) (f y)) l) = isort Qleb (map f l).
+Proof.
+  induction l as [|x l IH]; simpl; [reflexivity|]. rewrite <- IH.
+  generalize (isort (fun x0 y : A => Qleb (f x0) (f y)) l). intro s.
+  induction s as [|y s IHs]; simpl; [reflexivity|].
+  destruct (Qleb (f x) (f y)); simpl; [reflexivity|]. rewrite IHs. reflexivity.
+Qed.
+
+Lemma mc_fold_stopped cost B s : forall c k, fold_left (mc_step cost B) s (true, c, k) = (true, c, k).
+Proof. induction s as [|p s IH]; intros c k; simpl; [reflexivity|apply IH]. Qed.
+
+Lemma mc_fold_count cost B s : forall c k,
+  snd (fold_left (mc_step cost B) s (false, c, k)) == k + Qnat (count_fit (map cost s) c B).
+Proof.
+  induction s as [|p s IH]; intros c k; simpl; [unfold Qnat; simpl; ring|].
+  unfold Qltb. fold (Qleb (cost p + c) B). destruct (Qleb (cost p + c) B) eqn:E; simpl.
+  - rewrite IH. rewrite Qnat_S. ring.
+  - rewrite mc_fold_stopped. simpl. unfold Qnat. simpl. ring.
+Qed.
+
+Lemma mc_canonical cost B l :
+  snd (fold_left (mc_step cost B) (isort (fun x y => Qleb (cost x) (cost y)) l) (false, 0, 0))
+  == Qnat (max_card (map cost l) B).
+Proof.
+  rewrite mc_fold_count. unfold max_card. rewrite isort_map_key. ring.
+Qed.
+
+(* the same function written with enumerate and an early return: state (pending return value, cost so far) *)
+Definition mc2_step (cost : proj -> Q) (B : Q) (st : option Q * Q) (it : Q * proj) : option Q * Q :=
+  let '(ret, c) := st in
+  match ret with
+  | Some _ => st
+  | None => if Qltb B (cost (snd it) + c) then (Some (fst it), c) else (ret, cost (snd it) + c)
+  end.
+Definition mc2_result (n : Q) (st : option Q * Q) : Q := match fst st with Some r => r | None => n end.
+Global Hint Unfold mc2_step mc2_result : pycanon.
+
+Lemma mc2_fold_stuck cost B L : forall r c, fold_left (mc2_step cost B) L (Some r, c) = (Some r, c).
+Proof. induction L as [|x L IH]; intros r c; simpl; [reflexivity|apply IH]. Qed.
+
+Lemma mc2_fold_count cost B s : forall k c,
+  mc2_result (Qnat (k + length s)) (fold_left (mc2_step cost B) (combine (map Qnat (seq k (length s))) s) (None, c))
+  == Qnat (k + count_fit (map cost s) c B).
+Proof.
+  induction s as [|p s IH]; intros k c; cbn [length seq map combine fold_left count_fit].
+  - unfold mc2_result. cbn [fst]. reflexivity.
+  - unfold mc2_step at 2. cbn [fst snd]. unfold Qltb. fold (Qleb (cost p + c) B).
+    destruct (Qleb (cost p + c) B) eqn:E; cbn [negb].
+    + replace (k + S (length s))%nat with (S k + length s)%nat by lia. rewrite IH.
+      replace (S k + count_fit (map cost s) (cost p + c) B)%nat with (k + S (count_fit (map cost s) (cost p + c) B))%nat by lia.
+      reflexivity.
+    + rewrite mc2_fold_stuck. unfold mc2_result. cbn [fst]. rewrite Nat.add_0_r. reflexivity.
+Qed.
+
+Lemma mc2_canonical cost B l :
+  mc2_result (Qnat (length (isort (fun x y => Qleb (cost x) (cost y)) l)))
+    (fold_left (mc2_step cost B) (py_enumerate (isort (fun x y => Qleb (cost x) (cost y)) l)) (None, 0))
+  == Qnat (max_card (map cost l) B).
+Proof.
+  unfold py_enumerate. pose proof (mc2_fold_count cost B (isort (fun x y => Qleb (cost x) (cost y)) l) 0 0) as H.
+  cbn [plus] in H. rewrite H. unfold max_card. rewrite isort_map_key. reflexivity.
+Qed.
 
 (* "no ZeroDivisionError": a boolean that must be true on every path *)
 Ltac py_safe_atoms :=
@@ -400,7 +753,20 @@ Ltac py_safe_atoms :=
   | |- context [Qltb ?a ?b] => let E := fresh "E" in destruct (Qltb a b) eqn:E
   | |- context [Nat.eqb ?a ?b] => let E := fresh "E" in destruct (Nat.eqb a b) eqn:E
   | |- context [inb ?a ?b] => let E := fresh "E" in destruct (inb a b) eqn:E
+  | |- context [memb ?a ?b] => let E := fresh "E" in destruct (memb a b) eqn:E
   end.
 Ltac py_safe :=
   solve [ intros; py_unfold; py_loops; py_safe_atoms; py_simpl; py_bool_to_prop; py_bridge;
           first [ reflexivity | exfalso; lra | exfalso; lia | exfalso; congruence | py_cases ] ].
+
+(* two lists built from the same list by filters / maps whose functions agree pointwise *)
+Ltac py_list_ext :=
+  intros; py_unfold; py_loops;
+  first [ apply filter_ext' | apply map_ext | apply flat_map_ext ];
+  intros; py_unfold; py_safe_atoms; py_simpl; py_bool_to_prop; py_bridge;
+  first [ reflexivity | exfalso; lra | exfalso; lia | exfalso; congruence ].
+
+Ltac py_auto_core := solve [ py_pointwise | py_sum_ext; py_cases | py_fold | py_quant | py_list_ext ].
+
+(* the generic tactic: values, sums, loops, quantifiers, boolean equations *)
+Ltac py_auto := first [ py_auto_core | py_safe ].
